@@ -822,6 +822,7 @@ class SpecialEvent(Event):
 
 
 @typ.final
+@dataclasses.dataclass(kw_only=True, frozen=True)
 class StarPowerEvent(SpecialEvent):
     """An event representing star power starting at some tick and lasting for some duration."""
 
